@@ -58,7 +58,7 @@ func outViolation(v *Violation) *ViolationOut {
 
 // InitList is the set of packages whose globals are allocated and whose init functions run.
 var InitList = []string{
-	"context", "io", "internal/oserror",
+	"context", "io", "internal/oserror", "time",
 	"github.com/pkg/errors", "github.com/cenkalti/backoff/v3", "github.com/sony/gobreaker", "github.com/hashicorp/go-multierror", "github.com/hashicorp/errwrap",
 	ModulePath, ModulePath + "/...",
 }
